@@ -168,7 +168,8 @@ def check_kernel(rep, f, add, find, arity):
         rep.check(req is True, "R3.2", "%s|exclusion-edge|%s" % (name, ",".join(pr)), "with exclusions on, insertion only if IsExcluded(%s) is false" % ",".join(pr),
                   "%s: with do_exclusions_ set, %s is reachable although IsExcluded(%s) returned true (or the test is bypassed)" % (name, add, ",".join(pr)), f.loc(e), sample=True)
         # the test is only skipped when do_exclusions_ is false
-        guards = [a for a in f.ancestors(e) if a.get("k") == "if" and show(a["cond"]) == "do_exclusions_"]
+        sw = [x for x in f.walk() if x.get("k") == "member" and x.get("fname") == "do_exclusions_"]
+        guards = [x for x in sw if g.edge_required(x["id"], True, e["id"], None) is True]
         rep.check(bool(guards), "R3.2", "%s|exclusion-switch|%s" % (name, ",".join(pr)), "exclusion test guarded by do_exclusions_",
                   "%s: the exclusion test is not controlled by do_exclusions_" % name, f.loc(e))
     want_exp = {frozenset(p) for p in ([(beads[0], beads[1])] if arity == 2 else [(beads[0], beads[1]), (beads[0], beads[2]), (beads[1], beads[2])])}
@@ -376,12 +377,33 @@ def check_getcell(rep, F):
                 rep.check(ok, "R3.6", "%s|cell-index|%s" % (cls, ax), "index %s in %s within [0, N-1]" % (show(idx), fmt(iv) if iv else "?"),
                           "%s::getCell: cell index %s ranges over %s, outside [0, N_%s-1] for some positions (negative coordinates / far "
                           "images): out-of-bounds cell access" % (cls, show(idx), fmt(iv) if iv else "unknown", ax), f.loc(rets[0]), sample=(ax == "a"))
-                # the index must be derived from floor(r . norm_x_)
-                d = [dd for dd in f.decls.values() if dd.get("name") == show(idx) and dd.get("init") is not None]
-                okf = bool(d) and re.sub(r"\s+", "", show(d[0]["init"])) in ("(long)floor(r.dot(norm_%s_))" % ax, "(votca::Index)floor(r.dot(norm_%s_))" % ax,
-                                                                            "(Index)floor(r.dot(norm_%s_))" % ax)
-                rep.check(okf, "R3.6", "%s|cell-formula|%s" % (cls, ax), "cell %s = floor(r . norm_%s_)" % (ax, ax),
-                          "%s::getCell computes the %s index as %s, not floor(r.dot(norm_%s_))" % (cls, ax, show(d[0]["init"]) if d else "?", ax), f.loc())
+            # the index must be congruent (mod N) to floor(r . norm_x_) and depend on the position only through it
+            fo = Fold(f).run()
+            rv = [v for v, _g, _s in fo.returns]
+            if len(rv) != 1 or isinstance(rv[0], (Matrix, tuple)) or str(getattr(rv[0], "func", "")) not in ("at", "getCell") or len(rv[0].args) != 4:
+                rep.broken("R3.6", "%s::getCell: the returned cell does not fold to grid_(a,b,c) (%s)" % (cls, str(rv)[:120]))
+                continue
+            r_atoms = vec_atoms(f.j["params"][0]["name"])
+            for val, ax in zip(rv[0].args[1:], "abc"):
+                nrm = vec_atoms("norm_%s_" % ax)
+                want = sum(r_atoms[i] * nrm[i] for i in range(3))
+                floors = {a for a in sp.preorder_traversal(val) if str(getattr(a, "func", "")) == "floor"}
+                okf = len(floors) == 1
+                why = "no unique floor(...) of the position in %s" % str(val)[:160]
+                if okf:
+                    fl = list(floors)[0]
+                    Z = S("_Z")
+                    rest = val.xreplace({Fn("toint")(fl): Z}).xreplace({fl: Z})
+                    okf = is_zero(fl.args[0] - want) and not any(a in rest.free_symbols for a in r_atoms)
+                    why = "the %s index is %s" % (ax, str(val)[:200])
+                    if okf:
+                        okf = congruent(rest, Z, S("box_N%s_" % ax))
+                        why = "the %s index %s is not congruent to floor(r . norm_%s_) modulo box_N%s_" % (ax, str(rest)[:200], ax, ax)
+                rep.check(okf, "R3.6", "%s|cell-formula|%s" % (cls, ax), "cell %s == floor(r . norm_%s_) (mod N_%s)" % (ax, ax, ax),
+                          "%s::getCell: %s (required: floor(r.dot(norm_%s_)) wrapped into [0, N))" % (cls, why, ax), f.loc())
+
+
+from vsa.cases import congruent
 
 
 def check_simple_iterators(rep, F):
